@@ -133,14 +133,16 @@ def params_wire(params):
             [] if p["step_limit"] is None else [p["step_limit"]], [] if b is None else [[b[0], b[1]]]]
 
 
-def generate_recorded(params, seed):
-    """runs the real generator under the recorder; returns (Scenario, oracle)"""
+def generate_recorded(params, seed, generator=None):
+    """runs the real generator under the recorder; returns (Scenario, oracle).  With `generator` an existing
+    ScenarioGenerator instance is used again (the documented class API) instead of a fresh one."""
     import nasim
     rec = Recorder()
     np.random.seed(seed)
     rec.install()
     try:
-        sc = nasim.generate_scenario(**{k: v for k, v in params.items() if k != "seed"})
+        kw = {k: v for k, v in params.items() if k != "seed"}
+        sc = nasim.generate_scenario(**kw) if generator is None else generator.generate(**kw)
     finally:
         rec.remove()
     return sc, rec.oracle, rec.calls
